@@ -312,8 +312,28 @@ def rule_mac_present(report, prog):
     report.floor('C20-R5', n, 2)
 
 
+def rule_password_passthrough(report, prog, rule='C20-R3'):
+    """The key on the tag is derived from the password given to protect(), the key presented later from the password given to
+    authenticate(): the common entry points of nfc.tag.Tag hand their `password` parameter to the tag specific `_protect` /
+    `_authenticate` unchanged -- it is not re-bound in the wrapper and the delegate receives the parameter itself, first -- so that
+    both derivations start from the same octets (a normalisation on one side only makes the right password fail, or a wrong one pass)."""
+    n = 0
+    for name, delegate in (('protect', '_protect'), ('authenticate', '_authenticate')):
+        f = prog.func('nfc.tag.Tag.' + name)
+        rebound = [st for st in ast.walk(f.node) if isinstance(st, (ast.Assign, ast.AugAssign, ast.AnnAssign, ast.NamedExpr)) and any(
+            isinstance(t, ast.Name) and t.id == 'password' and isinstance(t.ctx, ast.Store) for t in ast.walk(st))]
+        calls_ = [c for c in ast.walk(f.node) if isinstance(c, ast.Call) and norm(c.func) == 'self.' + delegate]
+        n += len(calls_)
+        okk = bool(calls_) and not rebound and all(c.args and isinstance(c.args[0], ast.Name) and c.args[0].id == 'password' for c in calls_)
+        report.check(okk, rule, key(f.qname, 'the password reaches %s as given' % delegate), f.loc(rebound[0]) if rebound else f.loc(),
+                     'Tag.%s() does not hand the password to %s as it was given (%s): protect() and authenticate() no longer derive the key from the same octets'
+                     % (name, delegate, norm(rebound[0]) if rebound else 'first argument of the delegate call is not the parameter'))
+    report.floor(rule + ' password delegates', n, 2)
+
+
 def run(report, prog, tier):
     rule_dominance(report, prog)
+    rule_password_passthrough(report, prog)
     rule_slots(report, prog)
     rule_key_derivation(report, prog)
     rule_mac_inputs(report, prog)
